@@ -83,7 +83,7 @@ class Gen:
             a = self.send('OPEN %d %d' % (k, w)).split()
             if a[0] == '0':
                 io, nrecs = self.io_paths.get(k, (False, 0))
-                self.open[int(a[1])] = dict(k=k, indef=False, rdonly=not w, pget=0, pput=0, pbput=0, precput=0, attached=False, nvars=None, fresh=False,
+                self.open[int(a[1])] = dict(k=k, indef=False, rdonly=not w, pget=0, pput=0, pbput=0, precput=0, lastm=0, attached=False, nvars=None, fresh=False,
                                             io=io, nrecs=nrecs)
                 self.count('open')
         elif k in self.exists and c == 6:
@@ -92,7 +92,7 @@ class Gen:
         else:
             a = self.send('CREATE %d' % k).split()
             if a[0] == '0':
-                self.open[int(a[1])] = dict(k=k, indef=True, rdonly=False, pget=0, pput=0, pbput=0, precput=0, attached=False, nvars=0, fresh=True,
+                self.open[int(a[1])] = dict(k=k, indef=True, rdonly=False, pget=0, pput=0, pbput=0, precput=0, lastm=0, attached=False, nvars=0, fresh=True,
                                             io=False, nrecs=0)
                 self.io_paths[k] = (False, 0)
                 if r.chance(1, 2):      # make the file ready for nonblocking I/O right away
@@ -138,10 +138,13 @@ class Gen:
         del self.open[ncid]
         self.closed_ids.add(ncid)
 
+    def wait_done_nocommit(self, f):
+        f['pget'] = f['pput'] = f['pbput'] = f['precput'] = f['lastm'] = 0
+
     def wait_done(self, f):
         if f['precput']:
             f['nrecs'] = max(f['nrecs'], 1)
-        f['pget'] = f['pput'] = f['pbput'] = f['precput'] = 0
+        f['pget'] = f['pput'] = f['pbput'] = f['precput'] = f['lastm'] = 0
 
     def do_call(self, ncid):
         r = self.rng
@@ -160,6 +163,42 @@ class Gen:
                 kinds += ['IPUT fx', 'IPUT rc', 'IPUT sm', 'IPUT rs'] * 2
                 if f['attached'] and f['pbput'] < 4:
                     kinds += ['BPUT fx', 'BPUT rc', 'BPUT sm', 'BPUT rs'] * 3
+            if r.chance(1, 4):
+                # varm + transposed imap + non-contiguous derived buftype: the request owns an imaptype AND a dup of the buftype
+                mk = ['IGET'] + ([] if f['rdonly'] else ['IPUT', 'IPUT'] + (['BPUT'] if f['attached'] and f['pbput'] < 4 else []))
+                k = r.choice(mk)
+                if self.send('MREQ %d %s' % (ncid, k)) == '0':
+                    self.count('mreq:' + k)
+                    f['lastm'] = {'IGET': 1, 'IPUT': 2, 'BPUT': 3}[k]
+                    if k == 'IGET':
+                        f['pget'] += 1
+                    else:
+                        f['pput'] += 1
+                        f['pbput'] += (k == 'BPUT')
+                return
+            if pend and r.chance(1, 5):
+                # end pending requests otherwise than by close: by id (wait / cancel) or wholesale per kind
+                ops = ['CANCELGET', 'CANCELPUT', 'CANCELALL'] + (['WAITID', 'CANCELID'] * 2 if f['lastm'] else [])
+                k = r.choice(ops)
+                a = self.send('%s %d' % (k, ncid))
+                self.count('end-pending:' + k)
+                if a.startswith('0'):
+                    if k == 'CANCELGET':
+                        f['pget'] = 0
+                        f['lastm'] = 0 if f['lastm'] == 1 else f['lastm']
+                    elif k == 'CANCELPUT':
+                        f['pput'] = f['pbput'] = f['precput'] = 0
+                        f['lastm'] = 1 if f['lastm'] == 1 else 0
+                    elif k == 'CANCELALL':
+                        self.wait_done_nocommit(f)
+                    else:
+                        if f['lastm'] == 1:
+                            f['pget'] -= 1
+                        else:
+                            f['pput'] -= 1
+                            f['pbput'] -= (f['lastm'] == 3)
+                        f['lastm'] = 0
+                return
             if pend and r.chance(1, 6):
                 a = self.send('WAITALL %d' % ncid)
                 self.count('call:WAITALL')
@@ -290,6 +329,24 @@ def directed(nmax):
     for z in ZFORMS:
         L += ['OPEN 0 1', 'ZREQ 0 %s' % z, 'CLOSE 0', 'LEAK']
     S.append(('zero-length-each-form', L, None))
+    # pending varm requests with transposed imap AND a non-contiguous derived buftype (the request owns two datatypes), each kind ended
+    # in each possible way, balance after the close of the last file
+    ends = {'wait': ['WAITID 0'], 'wait_all': ['WAITALL 0'], 'cancel-id': ['CANCELID 0'], 'cancel-get-all': ['CANCELGET 0'],
+            'cancel-put-all': ['CANCELPUT 0'], 'cancel-all': ['CANCELALL 0'], 'close': [], 'abort': None}
+    for kind in ('IGET', 'IPUT', 'BPUT'):
+        for en, eops in ends.items():
+            pre = io + (['ATTACH 0'] if kind == 'BPUT' else [])
+            post = (['WAITALL 0', 'DETACH 0'] if kind == 'BPUT' and en not in ('close', 'abort') else [])
+            if eops is None:
+                L = pre + ['MREQ 0 %s' % kind, 'MREQ 0 %s' % kind, 'CREATE 1', 'ABORT 0', 'CLOSE 1', 'LEAK']
+                scen = 'leak-abort-with-pending'
+            else:
+                L = pre + ['MREQ 0 %s' % kind, 'IOP 0 IGET sm', 'MREQ 0 %s' % kind] + eops + post + ['CLOSE 0', 'LEAK']
+                scen = 'leak-attach-without-detach' if kind == 'BPUT' and en == 'close' else None
+            S.append(('varm-buftype-%s-%s' % (kind.lower(), en), L, scen))
+    S.append(('varm-buftype-mixed', io + ['ATTACH 0', 'MREQ 0 IGET', 'MREQ 0 IPUT', 'MREQ 0 BPUT', 'MREQ 0 IGET', 'CANCELID 0', 'MREQ 0 IPUT', 'WAITID 0',
+                                          'CANCELGET 0', 'MREQ 0 IGET', 'CANCELPUT 0', 'MREQ 0 IPUT', 'MREQ 0 IGET', 'CANCELALL 0', 'MREQ 0 IGET',
+                                          'MREQ 0 IPUT', 'DETACH 0', 'CLOSE 0', 'LEAK'], None))
     # abort with pending requests
     S.append(('pending-abort', io + ['IOP 0 IGET fx', 'IOP 0 IPUT fx', 'IOP 0 IPUT rs', 'IOP 0 IGET sm', 'CREATE 1', 'ABORT 0', 'SNAP', 'CLOSE 1', 'LEAK'],
               'leak-abort-with-pending'))
@@ -427,6 +484,10 @@ def run_check(tier, seed):
                     last_z = line.split(' ')[2]
                     dist['zreq:' + last_z] = dist.get('zreq:' + last_z, 0) + 1
                     nontrivial.add('zreq:%s:%s' % (last_z, name.rstrip('0123456789')))
+                elif op in ('MREQ', 'WAITID', 'CANCELID', 'CANCELGET', 'CANCELPUT', 'CANCELALL'):
+                    kk = op + (':' + line.split(' ')[2] if op == 'MREQ' else '')
+                    dist['varm-buftype:' + kk] = dist.get('varm-buftype:' + kk, 0) + 1
+                    nontrivial.add('%s:%s' % (kk, name.rstrip('0123456789')))
                 elif op in ('OPEN', 'CREATE'):
                     last_z = None if name == 'zero-length-each-form' else last_z
                 dist['op:' + op] = dist.get('op:' + op, 0) + 1
@@ -454,7 +515,7 @@ def run_check(tier, seed):
                                               script=lines, impl=impl))
                     elif scen:
                         log('[S4] note: scenario %s no longer leaks' % scen)
-                elif op in ('CLOSE', 'ABORT', 'WAITALL') and 'bufs=CHANGED' in impl:
+                elif op in ('CLOSE', 'ABORT', 'WAITALL', 'CANCELALL') and 'bufs=CHANGED' in impl:
                     # property oracle: the caller's put buffers are bit-identical again once the request is completed or cancelled
                     prop_fail.append(dict(sig='put-buffer-not-restored:' + op, what='%s of ncid %s with pending put requests leaves %s of the caller\'s put buffers modified '
                                           '(byte-swapped in place and never swapped back): %s (script %s request %d)' % (op, line.split(' ')[1], impl.split('(')[-1].rstrip(')'), impl, name, i),
